@@ -28,10 +28,23 @@ var Solvers = []SolverCfg{
 }
 
 // Query renders the SMT-LIB text of an obligation (prefix query).
-func (vc *VC) Query(o *Obligation, wantModel bool) string {
+func (vc *VC) Query(o *Obligation, wantModel bool) string { return vc.query(o, wantModel, false) }
+
+// query with relaxed=true drops every quantified assumption. Dropping assumptions only enlarges the set of
+// models: unsat of the relaxed query still discharges the obligation; a model of it is only a candidate
+// counterexample (to be confirmed by replay on the real code).
+func (vc *VC) query(o *Obligation, wantModel, relaxed bool) string {
 	var b strings.Builder
 	b.WriteString("(set-option :produce-models true)\n(set-logic ALL)\n")
-	b.WriteString(Preamble)
+	if relaxed {
+		for _, l := range strings.Split(Preamble, "\n") {
+			if !strings.Contains(l, "(forall") {
+				b.WriteString(l + "\n")
+			}
+		}
+	} else {
+		b.WriteString(Preamble)
+	}
 	for _, d := range vc.decls {
 		b.WriteString(d)
 		b.WriteByte('\n')
@@ -41,6 +54,9 @@ func (vc *VC) Query(o *Obligation, wantModel bool) string {
 		n = len(vc.cons)
 	}
 	for _, c := range vc.cons[:n] {
+		if relaxed && (strings.Contains(c, "(forall ") || strings.Contains(c, "(exists ")) {
+			continue
+		}
 		b.WriteString("(assert ")
 		b.WriteString(c)
 		b.WriteString(")\n")
@@ -148,37 +164,50 @@ func solveOne(it SolveItem, opts SolveOpts) {
 	}
 	var results []solveResult
 	decide := func(r solveResult) bool { return r.status == "unsat" || r.status == "sat" }
-	if opts.AllSolvers {
+	parallel := func(ss []SolverCfg, q string, ms int) {
 		var mu sync.Mutex
 		var wg sync.WaitGroup
-		for _, s := range Solvers {
+		for _, s := range ss {
 			wg.Add(1)
 			go func(s SolverCfg) {
 				defer wg.Done()
-				r := runSolver(s, query, opts.TimeoutMs)
+				r := runSolver(s, q, ms)
 				mu.Lock()
 				results = append(results, r)
 				mu.Unlock()
 			}(s)
 		}
 		wg.Wait()
+	}
+	if opts.AllSolvers {
+		parallel(Solvers, query, opts.TimeoutMs)
 	} else {
-		r := runSolver(Solvers[0], query, opts.TimeoutMs)
+		first := opts.TimeoutMs / 3
+		if first < 2000 {
+			first = 2000
+		}
+		r := runSolver(Solvers[0], query, first)
 		results = append(results, r)
 		if !decide(r) {
-			var mu sync.Mutex
-			var wg sync.WaitGroup
-			for _, s := range Solvers[1:] {
-				wg.Add(1)
-				go func(s SolverCfg) {
-					defer wg.Done()
-					r := runSolver(s, query, opts.TimeoutMs)
-					mu.Lock()
-					results = append(results, r)
-					mu.Unlock()
-				}(s)
-			}
-			wg.Wait()
+			parallel(Solvers[1:], query, opts.TimeoutMs)
+		}
+	}
+	decided := false
+	for _, r := range results {
+		if decide(r) {
+			decided = true
+		}
+	}
+	if !decided && !o.Cover {
+		// quantifier-free relaxation: unsat still discharges, sat gives a candidate counterexample
+		rq := it.VC.query(o, true, true)
+		r := runSolver(Solvers[0], rq, opts.TimeoutMs/2+1000)
+		r.solver += " (quantifier-free relaxation)"
+		if r.status == "unsat" {
+			results = append(results, r)
+		} else if r.status == "sat" {
+			o.Model = parseModel(r.out)
+			o.Detail["model"] = "candidate from the quantifier-free relaxation of the query (not a proof of violation by itself)"
 		}
 	}
 	var unsat, sat *solveResult
